@@ -5,6 +5,7 @@
 From Coq Require Import ZArith List Bool Field QArith Qabs Qcanon Lia.
 Import ListNotations.
 
+Set Primitive Projections.
 Class Fld := {
   F : Type;
   f0 : F; f1 : F;
@@ -17,6 +18,7 @@ Class Fld := {
   feqb_spec : forall a b, feqb a b = true <-> a = b;
 }.
 
+Unset Primitive Projections.
 Declare Scope F_scope.
 Delimit Scope F_scope with F.
 Notation "a + b" := (fadd a b) : F_scope.
@@ -48,6 +50,22 @@ Section Numerals.
   Fixpoint fsum (l : list F) : F :=
     match l with [] => f0 | x :: r => x + fsum r end.
 End Numerals.
+
+(* generic facts used to discharge the side conditions left by [field] *)
+Section Facts.
+  Context {fld : Fld}.
+  Add Field FfBase : Fth.
+  Local Open Scope F_scope.
+  Lemma fmul_nz a b : a <> f0 -> b <> f0 -> a * b <> f0.
+  Proof.
+    intros Ha Hb E. apply Hb.
+    transitivity ((f1 / a) * (a * b)); [field; exact Ha | rewrite E; ring].
+  Qed.
+  Lemma fopp_nz a : a <> f0 -> - a <> f0.
+  Proof. intros Ha E. apply Ha. transitivity (- - a); [ring | rewrite E; ring]. Qed.
+  Lemma f1_nz : f1 <> f0.
+  Proof. intro E. symmetry in E. exact (F_1_neq_0 Fth (eq_sym E)). Qed.
+End Facts.
 
 (* characteristic-0 hypotheses, stated where needed *)
 Definition Char0 (fld : Fld) : Prop := forall p : positive, @fpos fld p <> f0.
@@ -100,3 +118,15 @@ Definition close (tol m o : Qc) : bool :=
   let d := Qc_abs (m - o)%Qc in
   let s := if Qc_leb 1%Qc (Qc_abs o) then Qc_abs o else 1%Qc in
   Qc_leb d (tol * s)%Qc.
+
+(* [nz]: close goals of the form  c1 <> f0 /\ ... /\ cn <> f0  from hypotheses of the same shape
+   (up to ring equality) and products of such *)
+Ltac nz1 :=
+  match goal with
+  | H : ?a <> f0 |- ?b <> f0 =>
+      let E := fresh "E" in intro E; apply H; transitivity b; [ring | exact E]
+  | |- fmul ?a ?b <> f0 => apply fmul_nz; nz1
+  | |- fopp ?a <> f0 => apply fopp_nz; nz1
+  | |- f1 <> f0 => exact f1_nz
+  end.
+Ltac nz := repeat split; nz1.
